@@ -279,12 +279,12 @@ class RangeLiteral(Expression):
     def _make_range(self, start: Any, stop: Any) -> range:
         try:
             start = to_int(start)
-        except ValueError:
+        except (ValueError, TypeError, OverflowError):
             start = 0
 
         try:
             stop = to_int(stop)
-        except ValueError:
+        except (ValueError, TypeError, OverflowError):
             stop = 0
 
         # Descending ranges don't work
@@ -1641,7 +1641,7 @@ class LoopExpression(Expression):
     def _to_int(self, obj: object, *, token: TokenT) -> int:
         try:
             return to_int(obj)
-        except (ValueError, TypeError) as err:
+        except (ValueError, TypeError, OverflowError) as err:
             raise LiquidTypeError(
                 f"expected an integer, found {obj.__class__.__name__}",
                 token=token,
